@@ -1096,7 +1096,11 @@ def aim_object(cfg, size):
     from grid.becke import BeckeWeights
 
     a = cfg["aim"]
-    if a in ("none", "becke"):
+    if a == "becke":  # ONE BeckeWeights object for the whole run: every use is a step of a history on that object
+        if "becke" not in _RG_CACHE:
+            _RG_CACHE["becke"] = BeckeWeights(order=3)
+        return _RG_CACHE["becke"]
+    if a == "none":
         return BeckeWeights(order=3)
     if a == "pow2":
         return aim_pow2_py
@@ -1262,6 +1266,31 @@ def make_ctor_cfgs(ctx: Ctx):
         c.update(kind="pruned", radius=radius, r_sectors=rs, d=d, s=(["list", ds] if use_s else ["none"]),
                  rgrid=rand_rgrid_arg(rng, c["atnums"], allow_none=(n <= 2)), tag="pruned")
         cfgs.append(c)
+    # ---- full product of argument forms on a molecule with a REPEATED element whose atoms get different per-atom values
+    rep_atn = [8, 1, 1]
+    rep_xyz = [[0.0, 0.0, 0.0], [1.75, 0.0, 0.5], [-0.5, 1.5, 0.0]]
+    rg_forms = [["none"], ["one", 2], ["list", [0, 3, 2]], ["dict", {"8": 1, "1": 0}]]
+    ps_forms = [["one", "medium"], ["list", ["fine", "coarse", "medium"]], ["dict", {"8": "coarse", "1": "medium"}]]
+    aims = ["none", "pow2", "becke"]
+    k = 0
+    for rgf in rg_forms:
+        for store in (None, False, True):
+            for psf in ps_forms:
+                k += 1
+                cfgs.append({"kind": "preset", "atnums": rep_atn, "coords": rep_xyz, "rgrid": rgf, "preset": psf, "store": store,
+                             "rotate": [None, 0, 11][k % 3], "aim": aims[k % 3], "tag": "forms-product"})
+            for sform in ("d", "s"):
+                k += 1
+                rs = [[0.5, 1.0], [1.0], [0.25, 0.5, 2.0]]
+                sec = [[3, 5, 7], [5, 3], [7, 3, 5, 3]] if sform == "d" else [[6, 14, 26], [14, 6], [26, 6, 14, 6]]
+                cfgs.append({"kind": "pruned", "atnums": rep_atn, "coords": rep_xyz, "rgrid": rgf, "store": store, "rotate": [None, 0, 5][k % 3],
+                             "aim": aims[k % 3], "radius": [["scalar", 1.0], ["list", [1.0, 0.5, 0.75]], ["array", [0.75, 1.0, 0.5]]][k % 3],
+                             "r_sectors": rs, "d": ["list", sec] if sform == "d" else ["omit"], "s": ["none"] if sform == "d" else ["list", sec],
+                             "tag": "forms-product"})
+            if rgf[0] in ("none", "one"):
+                k += 1
+                cfgs.append({"kind": "size", "atnums": rep_atn, "coords": rep_xyz, "rgrid": rgf, "store": store, "rotate": [None, 0, 9][k % 3],
+                             "aim": aims[k % 3], "size": [6, 14, 26][k % 3], "tag": "forms-product"})
     # ---- default radial grids (rgrid=None) for molecules of DIFFERENT elements, every constructor
     for n, atn in ((2, [8, 1]), (3, [1, 6, 1])):
         base = {"atnums": atn, "coords": rand_coords(rng, n), "rotate": 3 * n, "store": n == 3, "aim": "pow2", "rgrid": ["none"], "tag": "default-rgrid"}
@@ -1527,6 +1556,81 @@ def becke_spec_problems(mg, objs, atnums):
     return becke_problems(mg, atnums)
 
 
+def corr_becke_history(ctx: Ctx, report):
+    """ONE BeckeWeights object used for a sequence of molecules (geometry scans with the same elements, different element
+    lists and sizes in between, all entry points): every grid is checked against the un-chunked reference."""
+    from grid.atomgrid import AtomGrid
+    from grid.becke import BeckeWeights
+    from grid.molgrid import MolGrid
+
+    rng = ctx.rng
+    becke = BeckeWeights(order=3)
+    steps = []
+    tuples = [[6, 8], [1, 8, 1], [7], [1, 1, 1, 1], [6, 1, 1, 8, 1]] if ctx.quick else \
+        [[6, 8], [1, 8, 1], [7], [1, 1, 1, 1], [6, 1, 1, 8, 1], [8, 8], [16, 1, 1], [9, 6, 7, 8], [1, 1], [6, 6, 6, 6, 6, 6]]
+    for atn in tuples:
+        geos = [rand_coords(rng, len(atn)) for _ in range(3)]
+        geos.append([list(c) for c in geos[0]])  # back to the first geometry
+        if len(atn) == 2:  # a bond-length scan
+            geos = [[[0.0, 0.0, 0.0], [0.0, 0.0, d]] for d in (2.0, 5.0, 1.25, 2.0)]
+        for gi, xyz in enumerate(geos):
+            steps.append((atn, xyz, ["init", "size", "preset", "pruned"][(gi + len(atn)) % 4]))
+    rng.shuffle(tuples)
+    for atn in tuples[:3]:  # the same element lists again later in the history
+        steps.append((atn, rand_coords(rng, len(atn)), "size"))
+    hist = []
+    for si, (atn, xyz, how) in enumerate(steps):
+        a, c = np.array(atn), np.array(xyz, dtype=float)
+        rg = get_rg(si % 4)
+        hist.append({"atnums": atn, "coords": xyz, "via": how, "rgrid": si % 4})
+        ctx.case(("becke-history", si))
+        ctx.count(f"becke-history:{how}")
+
+        def build():
+            if how == "init":
+                return MolGrid(a, [AtomGrid(rg, degrees=[5], center=c[i], rotate=0) for i in range(len(atn))], becke)
+            if how == "size":
+                return MolGrid.from_size(a, c, 14, rg, becke, rotate=si)
+            if how == "preset":
+                return MolGrid.from_preset(a, c, "coarse", rg, aim_weights=becke, rotate=0)
+            return MolGrid.from_pruned(a, c, 1.0, [[1.0]] * len(atn), d_sectors=[[3, 5]] * len(atn), rgrid=rg, aim_weights=becke, rotate=0)
+
+        st, mg = observe(build)
+        key = "becke-history:" + json.dumps(hist, separators=(",", ":"))
+        if st == "exc":
+            report(len(hist), "corr_init", key, mg, f"step {si} of a history on one BeckeWeights object ({how}, atnums {atn}) raised {mg}", {"kind": "becke-history", "history": list(hist)})
+            return
+        probs = becke_problems(mg, atn)
+        for obl, what, obs, text in probs:
+            report(len(hist), obl, f"{key}:{what}", obs,
+                   f"one BeckeWeights(order=3) object reused for {len(hist)} molecules; the last one (atnums {atn}, via {how}): {text}",
+                   {"kind": "becke-history", "history": list(hist)})
+        if probs:
+            return  # the shortest failing history is enough
+
+
+def replay_becke_history(hist):
+    from grid.atomgrid import AtomGrid
+    from grid.becke import BeckeWeights
+    from grid.molgrid import MolGrid
+
+    becke = BeckeWeights(order=3)
+    probs = []
+    for si, h in enumerate(hist):
+        a, c, rg, how = np.array(h["atnums"]), np.array(h["coords"], dtype=float), get_rg(h["rgrid"]), h["via"]
+        n = len(a)
+        if how == "init":
+            mg = MolGrid(a, [AtomGrid(rg, degrees=[5], center=c[i], rotate=0) for i in range(n)], becke)
+        elif how == "size":
+            mg = MolGrid.from_size(a, c, 14, rg, becke, rotate=si)
+        elif how == "preset":
+            mg = MolGrid.from_preset(a, c, "coarse", rg, aim_weights=becke, rotate=0)
+        else:
+            mg = MolGrid.from_pruned(a, c, 1.0, [[1.0]] * n, d_sectors=[[3, 5]] * n, rgrid=rg, aim_weights=becke, rotate=0)
+        probs = becke_problems(mg, h["atnums"])
+    return probs
+
+
 # ====================================================================== end-to-end clause (partial: search only)
 ALPHAS = [0.3 * 100 ** (i / 11) for i in range(12)]  # 0.3 .. 30, geometric
 # fixed probes (independent of the seed): the worst inputs of a systematic scan of [Z, Z2] pairs at 1.2 .. 2.6 bohr;
@@ -1734,6 +1838,7 @@ def run(ctx: Ctx):
     ctx.cov["getitem_store_true_atomic_weights_observations"] = len(known_getitem)
 
     corr_becke(ctx, report)
+    corr_becke_history(ctx, report)
 
     # ---------------------------------------------------------------- (2) constructors vs by-hand
     cfgs, int_known = corr_fanout(ctx, table, defaults, report)
@@ -1781,7 +1886,10 @@ def run(ctx: Ctx):
         "aim in {default, BeckeWeights(3), callable, array}: the model's fan-out (equality checked in Coq) drives a by-hand build; bitwise equality. "
         "(2b) default Becke weights: MolGrid on 1..6 real atomic grids and the Becke-weighted constructor configurations (incl. fixed 4/5/6-atom ones, "
         "where BeckeWeights.__call__ works in several chunks) against an independent un-chunked point-by-point reference (1e-10), weights = product, "
-        "integral = sum of atomic integrals of w_A f (1e-11 relative).  (3) end-to-end: census of (preset, element) constructibility with default radial grids, fixed probes, systematic scan (thorough) and "
+        "integral = sum of atomic integrals of w_A f (1e-11 relative); histories on ONE BeckeWeights object (geometry scans with the same element list, "
+        "other element lists in between, all four entry points; the explicit-Becke constructor configurations also share one object).  "
+        "(2c) full product of argument forms (rgrid none/one/list/dict x preset str/list/dict or d/s sector lists x store default/False/True) on a "
+        "molecule with a repeated element whose atoms get different per-atom values.  (3) end-to-end: census of (preset, element) constructibility with default radial grids, fixed probes, systematic scan (thorough) and "
         "seeded random molecules.  distinct = (molecule, aim, store, observable) / configuration / (preset, molecule, exponents)")
     ctx.cov["molecules"] = len(groups)
     ctx.cov["coq_cases_init"] = sum(len(c) for _, c in groups)
@@ -1823,6 +1931,11 @@ def replay(rp):
         errs, tot = gauss_errors(mg, cs, rp["alphas"])
         print("errors of the single Gaussians:", errs, "relative error of the sum:", tot)
         return 1 if max(errs + [tot]) > E2E_TOL else 0
+    if kind == "becke-history":
+        probs = replay_becke_history(rp["history"])
+        for _, _, _, text in probs:
+            print("DISAGREEMENT (last molecule of the history):", text)
+        return 1 if probs else 0
     if kind == "e2e-census":
         from grid.molgrid import MolGrid
 
